@@ -6,6 +6,7 @@ struct Cell {            // one concrete dictionary input + its query universe
   strs S;                // sorted members (concrete bytes)
   strs Q;                // query universe (concrete)
   int pal = 0, sigma = 2, L = 2, stretch = 1, pre = 0, rep = 1;
+  str family;            // non-empty: the set comes from a named deterministic family (scope.hpp), queries from family_queries()
 };
 
 // ---- C01 round trip
